@@ -6,7 +6,8 @@ open IdModel.Doc IdModel.Meta IdModel.OSet
 
 /-- DIDs 0..4 are IOTA DIDs, 9 is the placeholder `did:0:0`, everything else is a DID of another method -/
 -- DIDs 0..4 are IOTA DIDs; 20..24 are IOTA DIDs with the SAME tags on another network (so: other DIDs)
-def isIota (x : Nat) : Bool := x < 5 || (20 ≤ x && x < 25)
+-- 30..34: the tag of DID n-30 with the default network spelled out (valid, non-normal form, another string)
+def isIota (x : Nat) : Bool := x < 5 || (20 ≤ x && x < 25) || (30 ≤ x && x < 35)
 def placeholder : Nat := 9
 
 def parseMth (t : String) : Option Mth :=
